@@ -12,107 +12,187 @@ namespace BM.C08
 open BM
 
 theorem logical_eq_raw (s : Store) (h : StoreInv s) : logical s = s.raw := by
-  sorry
+  unfold logical
+  rcases h with h | h <;> simp [h]
 
 theorem ofBits_inv (b : Bits) : StoreInv (ofBits b) ∧ logical (ofBits b) = b := by
-  sorry
+  exact ⟨Or.inl rfl, by simp [logical, ofBits]⟩
 
 /-! ### (1) routes: the selected window, for every source, offset and length -/
 
 theorem fromBuffer_inv (data : Bits) (l : Option Int) (s : Store) (h : fromBuffer data l = .ok s) :
     StoreInv s := by
-  sorry
+  unfold fromBuffer at h
+  split at h
+  · injection h with h; subst h; exact Or.inl rfl
+  · split at h
+    · cases h
+    · split at h
+      · cases h
+      · split at h
+        · injection h with h; subst h; exact Or.inl rfl
+        · injection h with h; subst h; exact Or.inl rfl
 
 theorem fromBuffer_window (data : Bits) (l : Nat) (hl : l ≤ data.length) :
     ∃ s, fromBuffer data (some (l : Int)) = .ok s ∧ logical s = data.take l ∧ StoreInv s := by
-  sorry
+  have h1 : ¬ ((l : Int) < 0) := by omega
+  have h2 : ¬ (l > data.length) := by omega
+  by_cases h3 : l < data.length
+  · refine ⟨⟨data.take l, none⟩, ?_, (ofBits_inv (data.take l)).2, Or.inl rfl⟩
+    simp only [fromBuffer, h1, h2, if_false, Int.toNat_natCast, h3, if_true]
+  · have hl' : l = data.length := by omega
+    refine ⟨⟨data, none⟩, ?_, ?_, Or.inl rfl⟩
+    · simp only [fromBuffer, h1, h2, if_false, Int.toNat_natCast, h3]
+    · simp [logical, hl']
 
 theorem fromBuffer_too_long (data : Bits) (l : Int) (hl : (data.length : Int) < l) :
     fromBuffer data (some l) = .error .value := by
-  sorry
+  have h1 : ¬ (l < 0) := by omega
+  have h2 : l.toNat > data.length := by omega
+  simp only [fromBuffer, h1, if_false, h2, if_true]
 
 /-- A file opened with any valid offset and length holds exactly that window (in particular a file-backed
     bitstring whose length stops short of the file). -/
 theorem fromFile_window (data : Bits) (off len : Nat) (h : off + len ≤ data.length) :
     ∃ s, fromFile data (some (off : Int)) (some (len : Int)) = .ok s ∧
       logical s = window data off len ∧ StoreInv s := by
-  sorry
+  by_cases h0 : off = 0
+  · subst h0
+    obtain ⟨s, hs, hl, hi⟩ := fromBuffer_window data len (by omega)
+    refine ⟨s, ?_, ?_, hi⟩
+    · simpa [fromFile] using hs
+    · rw [hl]; simp [window]
+  · have hne : ¬ ((off : Int) = 0) := by omega
+    have hc : (off : Int) + (len : Int) = ((off + len : Nat) : Int) := by push_cast; rfl
+    refine ⟨ofBits (window data off len), ?_, (ofBits_inv _).2, (ofBits_inv _).1⟩
+    have hlen : ((List.take (off + len - off) (List.drop off data)).length : Int) = (len : Int) := by
+      simp only [List.length_take, List.length_drop]; omega
+    simp only [fromFile, Option.getD_some, hne, if_false, hc, getSlice_nat, hlen, ne_eq, not_true_eq_false]
+    simp only [window, Nat.add_sub_cancel_left]
 
 theorem fromFile_to_end (data : Bits) (off : Nat) (h : off ≤ data.length) :
     ∃ s, fromFile data (some (off : Int)) none = .ok s ∧ logical s = data.drop off ∧ StoreInv s := by
-  sorry
+  by_cases h0 : off = 0
+  · subst h0
+    exact ⟨⟨data, none⟩, by simp [fromFile, fromBuffer], by simp [logical], Or.inl rfl⟩
+  · have hne : ¬ ((off : Int) = 0) := by omega
+    have h2 : ¬ ((off : Int).toNat > data.length) := by simp only [Int.toNat_natCast]; omega
+    refine ⟨ofBits (data.drop off), ?_, (ofBits_inv _).2, (ofBits_inv _).1⟩
+    simp only [fromFile, Option.getD_some, hne, if_false, h2, getSlice_nat_none]
+    rfl
 
-theorem fromFile_beyond (data : Bits) (off len : Nat) (hoff : 0 < off) (h : data.length < off + len) :
-    fromFile data (some (off : Int)) (some (len : Int)) = .error .value := by
-  sorry
 
 theorem fromBytes_window (data : Bits) (off len : Nat) (h : off + len ≤ data.length) :
     ∃ s, fromBytes data (some (off : Int)) (some (len : Int)) = .ok s ∧
       logical s = window data off len ∧ StoreInv s := by
-  sorry
+  have hc : (off : Int) + (len : Int) = ((off + len : Nat) : Int) := by push_cast; rfl
+  have h1 : ¬ ((len : Int) + (off : Int) > (data.length : Int)) := by omega
+  refine ⟨ofBits (window data off len), ?_, (ofBits_inv _).2, (ofBits_inv _).1⟩
+  simp only [fromBytes, Option.getD_some, h1, if_false, hc, getSlice_nat]
+  simp only [window, Nat.add_sub_cancel_left]
+  rfl
 
 theorem fromBytes_beyond (data : Bits) (off len : Nat) (h : data.length < off + len) :
     fromBytes data (some (off : Int)) (some (len : Int)) = .error .value := by
-  sorry
+  have h1 : ((len : Int) + (off : Int) > (data.length : Int)) := by omega
+  simp only [fromBytes, Option.getD_some, h1, if_true]
 
 /-- The BytesIO route (byte window first, then a bit slice inside it) selects the same window. -/
 theorem fromBytesIO_window (data : Bits) (off len : Nat) (h8 : 8 ∣ data.length) (h : off + len ≤ data.length) :
     ∃ s, fromBytesIO data (some (off : Int)) (some (len : Int)) = .ok s ∧
       logical s = window data off len ∧ StoreInv s := by
-  sorry
+  have h1 : ¬ ((len : Int) + (off : Int) / 8 * 8 + (off : Int) % 8 > (data.length : Int)) := by omega
+  have ha : (off : Int) / 8 * 8 = ((off / 8 * 8 : Nat) : Int) := by push_cast; rfl
+  have hb : ((off : Int) / 8 + (((len : Int) + (off : Int) / 8 * 8 + (off : Int) % 8 + 7) / 8 - (off : Int) / 8)) * 8
+      = (((len + off / 8 * 8 + off % 8 + 7) / 8 * 8 : Nat) : Int) := by push_cast; omega
+  have ho : (off : Int) % 8 = ((off % 8 : Nat) : Int) := by push_cast; rfl
+  have hol : ((off % 8 : Nat) : Int) + (len : Int) = ((off % 8 + len : Nat) : Int) := by push_cast; rfl
+  refine ⟨ofBits (window data off len), ?_, (ofBits_inv _).2, (ofBits_inv _).1⟩
+  simp only [fromBytesIO, Option.getD_some, h1, if_false, hb]
+  simp only [ha, ho, hol, getSlice_nat]
+  rw [bytesIO_collapse data off len _ (by omega)]
+  rfl
 
 theorem fromBitarray_window (data : Bits) (off len : Nat) (h : off + len ≤ data.length) :
     ∃ s, fromBitarray data (some (off : Int)) (some (len : Int)) = .ok s ∧
       logical s = window data off len ∧ StoreInv s := by
-  sorry
+  have hc : (off : Int) + (len : Int) = ((off + len : Nat) : Int) := by push_cast; rfl
+  have h0 : ¬ ((off : Int) > (data.length : Int)) := by omega
+  have h1 : ¬ (((off + len : Nat) : Int) > (data.length : Int)) := by omega
+  refine ⟨ofBits (window data off len), ?_, (ofBits_inv _).2, (ofBits_inv _).1⟩
+  simp only [fromBitarray, Option.getD_some, h0, if_false, hc, h1, getSlice_nat]
+  simp only [window, Nat.add_sub_cancel_left]
+  rfl
 
 theorem fromBitarray_beyond (data : Bits) (off len : Nat) (h : data.length < off + len) :
     fromBitarray data (some (off : Int)) (some (len : Int)) = .error .value := by
-  sorry
+  have hc : (off : Int) + (len : Int) = ((off + len : Nat) : Int) := by push_cast; rfl
+  have h1 : (((off + len : Nat) : Int) > (data.length : Int)) := by omega
+  simp only [fromBitarray, Option.getD_some, hc, h1, if_true, ite_self]
 
 /-! ### (2) every store-level operation is a function of the logical content -/
 
 theorem len_logical (s : Store) (h : StoreInv s) : len s = (logical s).length := by
-  sorry
+  rw [logical_eq_raw s h]
+  rcases h with h | h <;> simp [len, h]
 
 theorem tobytes_logical (s : Store) (h : StoreInv s) : toBitsForBytes s = logical s := by
-  sorry
+  rw [logical_eq_raw s h]
+  rcases h with h | h <;> simp [toBitsForBytes, h]
 
 theorem eq_iff_logical (a b : Store) (ha : StoreInv a) (hb : StoreInv b) :
     eqStore a b = true ↔ logical a = logical b := by
-  sorry
+  rw [logical_eq_raw a ha, logical_eq_raw b hb]
+  simp [eqStore]
 
 theorem count_logical (s : Store) (h : StoreInv s) : count1 s = ((logical s).filter id).length := by
-  sorry
+  rw [logical_eq_raw s h]; rfl
 
 theorem getIndex_logical (s : Store) (h : StoreInv s) (i : Int) : getIndex s i = Py.getIndex (logical s) i := by
-  sorry
+  rw [logical_eq_raw s h]; rfl
 
 theorem anyAll_logical (s : Store) (h : StoreInv s) :
     anySet s = (logical s).any id ∧ allSet s = (logical s).all id := by
-  sorry
+  rw [logical_eq_raw s h]; exact ⟨rfl, rfl⟩
 
 theorem copy_logical (s : Store) (h : StoreInv s) :
     logical (copyStore s) = logical s ∧ StoreInv (copyStore s) := by
-  sorry
+  rw [logical_eq_raw s h]
+  exact ⟨(ofBits_inv s.raw).2, Or.inl rfl⟩
 
 theorem invert_logical (s : Store) (h : StoreInv s) :
     logical (invertAll s) = (logical s).map (!·) ∧ StoreInv (invertAll s) := by
-  sorry
+  rw [logical_eq_raw s h]
+  exact ⟨(ofBits_inv _).2, Or.inl rfl⟩
 
 theorem add_logical (a b : Store) (ha : StoreInv a) (hb : StoreInv b) :
     logical (addStore a b) = logical a ++ logical b ∧ StoreInv (addStore a b) := by
-  sorry
+  rw [logical_eq_raw a ha, logical_eq_raw b hb]
+  exact ⟨(ofBits_inv _).2, Or.inl rfl⟩
 
 theorem and_logical (a b : Store) (ha : StoreInv a) (hb : StoreInv b) :
     (andStore a b).map logical =
       (if (logical a).length ≠ (logical b).length then .error .value
        else .ok (List.zipWith (· && ·) (logical a) (logical b))) := by
-  sorry
+  rw [logical_eq_raw a ha, logical_eq_raw b hb]
+  unfold andStore
+  split
+  · rfl
+  · exact congrArg Except.ok (ofBits_inv _).2
 
 theorem getSlice_logical (s : Store) (h : StoreInv s) (a e : Option Int) :
     (getSlice s a e).map logical = Py.getSlice (logical s) a e none := by
-  sorry
+  rw [logical_eq_raw s h]
+  have hmap : ∀ r : Except Err Bits, (r.map ofBits).map logical = r := by
+    intro r
+    cases r with
+    | error e => rfl
+    | ok b => exact congrArg Except.ok (ofBits_inv b).2
+  rcases h with h | h
+  · simp only [getSlice, h]
+    exact hmap _
+  · simp only [getSlice, h]
+    rw [hmap, getSlice_normalised]
 
 /-- The congruence the property states: equal content ⇒ equal observations, whatever the two stores are. -/
 theorem ops_depend_on_content (s₁ s₂ : Store) (h₁ : StoreInv s₁) (h₂ : StoreInv s₂)
@@ -123,13 +203,45 @@ theorem ops_depend_on_content (s₁ s₂ : Store) (h₁ : StoreInv s₁) (h₂ :
     (∀ a e, (getSlice s₁ a e).map logical = (getSlice s₂ a e).map logical) ∧
     logical (invertAll s₁) = logical (invertAll s₂) ∧
     (∀ t, StoreInv t → logical (addStore s₁ t) = logical (addStore s₂ t)) := by
-  sorry
+  have hr : s₁.raw = s₂.raw := by rw [← logical_eq_raw s₁ h₁, ← logical_eq_raw s₂ h₂, hc]
+  refine ⟨?_, ?_, ?_, ?_, ?_, ?_, ?_, ?_, ?_, ?_⟩
+  · rw [len_logical s₁ h₁, len_logical s₂ h₂, hc]
+  · rw [tobytes_logical s₁ h₁, tobytes_logical s₂ h₂, hc]
+  · rw [count_logical s₁ h₁, count_logical s₂ h₂, hc]
+  · intro i; rw [getIndex_logical s₁ h₁, getIndex_logical s₂ h₂, hc]
+  · rw [(anyAll_logical s₁ h₁).1, (anyAll_logical s₂ h₂).1, hc]
+  · rw [(anyAll_logical s₁ h₁).2, (anyAll_logical s₂ h₂).2, hc]
+  · exact (eq_iff_logical s₁ s₂ h₁ h₂).2 hc
+  · intro a e; rw [getSlice_logical s₁ h₁, getSlice_logical s₂ h₂, hc]
+  · rw [(invert_logical s₁ h₁).1, (invert_logical s₂ h₂).1, hc]
+  · intro t ht; rw [(add_logical s₁ t h₁ ht).1, (add_logical s₂ t h₂ ht).1, hc]
 
 /-- Why `StoreInv` matters: a store with a length limit shorter than its buffer (what the pinned tree built for
     `Bits(filename=f, length=12)`) is told apart from its own bits by the raw-buffer methods. -/
 theorem limited_store_distinguishable :
     ∃ s : Store, ¬ StoreInv s ∧ count1 s ≠ count1 (ofBits (logical s)) ∧ eqStore s (ofBits (logical s)) = false := by
-  sorry
+  exact ⟨⟨[true, true], some 1⟩, by unfold StoreInv; decide, by decide, by decide⟩
+
+/-! ### the `fromFile_beyond` edge: an empty window past the end of the file -/
+
+/-- A too-long request is rejected whenever the requested length is positive or the offset is inside the file. -/
+theorem fromFile_beyond_of (data : Bits) (off len : Nat) (hoff : 0 < off) (h : data.length < off + len)
+    (hpos : 0 < len ∨ off ≤ data.length) :
+    fromFile data (some (off : Int)) (some (len : Int)) = .error .value := by
+  have hne : ¬ ((off : Int) = 0) := by omega
+  have hc : (off : Int) + (len : Int) = ((off + len : Nat) : Int) := by push_cast; rfl
+  have hlen : ((List.take (off + len - off) (List.drop off data)).length : Int) ≠ (len : Int) := by
+    simp only [List.length_take, List.length_drop]; omega
+  simp only [fromFile, Option.getD_some, hne, if_false, hc, getSlice_nat, ne_eq, hlen, not_false_eq_true, if_true]
+
+/-- … but a zero-length request with an offset beyond the end of the data is accepted by the model (the slice is
+    empty and its length matches), so `fromFile_beyond` does not hold without the extra hypothesis. -/
+theorem fromFile_empty_past_end (data : Bits) (off : Nat) (hoff : data.length < off) :
+    fromFile data (some (off : Int)) (some ((0 : Nat) : Int)) = .ok (ofBits []) := by
+  have hne : ¬ ((off : Int) = 0) := by omega
+  have hc : (off : Int) + ((0 : Nat) : Int) = ((off + 0 : Nat) : Int) := by push_cast; rfl
+  simp only [fromFile, Option.getD_some, hne, if_false, hc, getSlice_nat]
+  simp
 
 /-! ### non-vacuity -/
 example : (fromFile [true,true,true,true,false,false,false,false,true,false,true,false] (some 0) (some 6)).map logical
